@@ -1001,6 +1001,13 @@ def run(ctx):
             c["e"], c["k"], what, c["source"].replace("\n", "\\n").replace("\t", "\\t"), c["sheet"].replace("\n", " ")) for c, what in wbad[:20])
         ctx.violation("stripspace", "# C11: under xsl:strip-space one location path is observed with different values through different entry points\n"
                                     "# replay: run the stylesheet over the source (vlib/xsltrun.py) and compare the named elements of the output\n" + txt)
+    # the helper-bodies half (built as its own part: props/C11_helpers.py)
+    try:
+        hpart = __import__("importlib").import_module("props.C11_helpers")
+    except ImportError:
+        hpart = None
+    if hpart is not None:
+        hpart.run_part(ctx)
     ctx.notes["stripspace_failures"] = len(wbad)
     ctx.notes["oracle_failures"] = len(orc)
     ctx.notes["stylesheet_failures"] = len(sbad)
